@@ -58,6 +58,7 @@ type c12Case struct {
 	inlined *yang.ModSet // hand-written inline definition (fixed cases); nil: use the source-level expander
 	invalidRefine  string          // the set has a refine that must be refused (what is wrong with it)
 	crossClash     bool            // the clash is between nodes of two modules (namespaces differ)
+	expectStatus   map[string]int      // fixed cases: data path -> the status (0 current, 1 deprecated, 2 obsolete) the node states itself; whatever a uses / augment adds, the node is not less restricted
 	expectWhens    map[string][]string // fixed cases: data path -> the when expressions the compiled node must carry (all run on the parent)
 	augmentedBy    map[string]string // fixed cases: nodes that a module-level augment introduces, and the module that does
 	inheritedWhens map[string]bool // fixed cases: the when expressions that stand on a uses / augment in the source
@@ -229,6 +230,18 @@ func c12Gen(seed int64, idx int) c12Case {
 				yang.S("grouping", "inner", str("i1"), yang.S("container", "ic", str("deep"))),
 				yang.S("container", "top2", str("sel"), str("selb")),
 				yang.S("augment", "/ww:top2", yang.S("when", "sel = 'x'"), yang.S("uses", "inner", yang.S("when", "selb = 'y'"))))
+			// nodes that state a status themselves, brought in by a uses / augment that states another one: both
+			// apply, so the node is at least as restricted as it says itself
+			stl := func(n, st string) *yang.Stmt { return yang.S("leaf", n, yang.S("type", "string"), yang.S("status", st)) }
+			src.Add(yang.S("grouping", "st", stl("old", "obsolete"), stl("dep", "deprecated"), str("plain"),
+				yang.S("container", "oc", yang.S("status", "obsolete"), str("x"))),
+				yang.S("grouping", "st-outer", yang.S("uses", "st", yang.S("status", "deprecated")), stl("oold", "obsolete")),
+				yang.S("container", "top3", yang.S("uses", "st", yang.S("status", "deprecated"))),
+				yang.S("container", "top4", yang.S("uses", "st-outer", yang.S("status", "current"))),
+				yang.S("container", "top5", str("own")),
+				yang.S("augment", "/ww:top5", yang.S("status", "deprecated"), stl("aold", "obsolete"), str("aplain"), yang.S("uses", "st", yang.S("status", "deprecated"))))
+			c.expectStatus = map[string]int{"top3/old": 2, "top3/dep": 1, "top3/plain": 1, "top3/oc": 2, "top3/oc/x": 2,
+				"top4/old": 2, "top4/dep": 1, "top4/plain": 1, "top4/oold": 2, "top5/aold": 2, "top5/aplain": 1, "top5/old": 2, "top5/plain": 1, "top5/own": 0}
 			c.ms = &yang.ModSet{Mods: []*yang.Stmt{src}}
 			c.expectWhens = map[string][]string{
 				"top/i1": {"sel = 'a'", "selb = 'b'"}, "top/ic": {"sel = 'a'", "selb = 'b'"}, "top/o1": {"sel = 'a'"}, "top/ic/deep": {},
@@ -517,6 +530,24 @@ func (p *c12) Run(tier string, seed int64, idx int) core.CaseResult {
 				res.Fail("C12/whens-handed-down-differ", input, fmt.Sprintf("node %s: when conditions written on the uses / augment statements that introduce it: %q, the compiled node has %q", path, w2, got))
 			} else if !allParent {
 				res.Fail("C12/whens-handed-down-differ", input, fmt.Sprintf("node %s: a when handed down by a uses / augment is not run on the parent", path))
+			}
+		}
+		for path, least := range c.expectStatus {
+			var node schema.Node = fr.MS
+			pan, msg, _ := core.Guard(func() {
+				for _, st := range strings.Split(path, "/") {
+					node = node.Child(st)
+				}
+				_ = node.Name()
+			})
+			if pan {
+				res.Fail("C12/node-missing", input, path+": "+msg)
+				continue
+			}
+			res.Ev("statuses_of_nodes_with_two_sources_compared", 1)
+			if got := int(node.Status()); got < least {
+				res.Fail("C12/status-of-the-node-itself-lost", input, fmt.Sprintf("node %s: the statements on it and on the uses / augment that introduce it make it at least %s, the compiled node is %s",
+					path, []string{"current", "deprecated", "obsolete"}[least], node.Status()))
 			}
 		}
 		return res
